@@ -179,10 +179,14 @@ func scenarioClient(sp Spec, oc *Outcome) {
 		oc.Events, oc.Counts, oc.Dropped = recC.Snapshot()
 		return
 	}
+	for _, w := range p.stillOpen() {
+		oc.NotClosed = append(oc.NotClosed, "client: "+w)
+	}
 	oc.LeftAfter = stacks(waitNoLib(baseG, []string{"client"}, 1500*time.Millisecond))
 	oc.SockAfter = waitNoSockets(p.portSet(), 500*time.Millisecond)
 	wgW.Wait()
 	<-p.done
+	p.closeBlockers()
 
 	if fx != nil {
 		fx.srv.Close()
@@ -199,6 +203,7 @@ func scenarioClient(sp Spec, oc *Outcome) {
 	oc.LeftFinal = stacks(waitNoLib(baseG, nil, 2*time.Second))
 	oc.FdFinal = waitFdBaseline(baseFd, time.Second)
 	finalRecheck(oc, baseG, baseFd)
+	oc.Sockets = [2]int{socketCount(baseFd), socketCount(fdSnapshot())}
 	oc.Events, oc.Counts, oc.Dropped = recC.Snapshot()
 	oc.Counts["written"] = int(written.Load())
 	if len(p.errs) > 0 {
